@@ -298,7 +298,7 @@ func workC01Include(w *run.W) {
 	for i := 0; i < p.Files; i++ {
 		targets = append(targets, fmt.Sprintf("f%d.jst", i))
 	}
-	targets = append(targets, "missing.jst", "d", `""`, ".", "..", "d/g.jst")
+	targets = append(targets, "missing.jst", "d", `""`, ".", "..", "d/g.jst", "pipe")
 	// all ordered lists of <= MaxList targets
 	var lists [][]string
 	lists = append(lists, nil)
@@ -331,7 +331,7 @@ func workC01Include(w *run.W) {
 				if !w.Mine(idx) || !w.Begin(fmt.Sprintf("inc/%d/%d/%s/%d", p.Files, c, pl, bi)) {
 					continue
 				}
-				pr := impl.Project{Files: map[string]string{"d/g.jst": "TYPE @g any\n"}, Root: "f0.jst", Dirs: []string{"d"}}
+				pr := impl.Project{Files: map[string]string{"d/g.jst": "TYPE @g any\n"}, Root: "f0.jst", Dirs: []string{"d"}, Fifos: []string{"pipe"}}
 				x := c
 				for f := 0; f < p.Files; f++ {
 					l := lists[x%len(lists)]
@@ -530,6 +530,6 @@ func runC01(c *chk.Ctx) {
 		}
 	}
 	c.Cov["families"] = fam
-	c.Cov["rule"] = "eight exhaustively enumerated families: (types) every graph of three user types whose bodies come from 11 templates referring to the other two (object, optional reference, or-shortcut, array, allOf, or-rule, rule-violating examples short and long, any, regex, scalar) x 7 consumers of the first type x both declaration orders; (inject) two compact documents covering every kind of region with one byte, and every pair of positions, replaced by each of 15 special bytes (thorough: also pairs of two different bytes); (models) every generated valid model within the node budget with its top-level blocks in declaration and in reversed order; (bytes) all 256 bytes and all pairs of ~50 class-representative bytes after the shortest witness of every scanner control state up to the token depth; (sequences) all sequences of well-formed and malformed directive instances up to the length bound, with and without a leading JSIGHT; (macro-graphs) all PASTE graphs over k macros incl. cycles and undefined targets; (include-graphs) all include lists over files/missing/directory/empty/dot targets x placements, on a real directory; (root) nonexistent/directory/empty root and every single byte. Oracle: a catalog or a non-nil located error, no recovered panic, no fatal error, no hang. non-trivial = distinct input, counted by content hash"
+	c.Cov["rule"] = "eight exhaustively enumerated families: (types) every graph of three user types whose bodies come from 11 templates referring to the other two (object, optional reference, or-shortcut, array, allOf, or-rule, rule-violating examples short and long, any, regex, scalar) x 7 consumers of the first type x both declaration orders; (inject) two compact documents covering every kind of region with one byte, and every pair of positions, replaced by each of 15 special bytes (thorough: also pairs of two different bytes); (models) every generated valid model within the node budget with its top-level blocks in declaration and in reversed order; (bytes) all 256 bytes and all pairs of ~50 class-representative bytes after the shortest witness of every scanner control state up to the token depth; (sequences) all sequences of well-formed and malformed directive instances up to the length bound, with and without a leading JSIGHT; (macro-graphs) all PASTE graphs over k macros incl. cycles and undefined targets; (include-graphs) all include lists over files/missing/directory/named-pipe/empty/dot targets x placements, on a real directory; (root) nonexistent/directory/empty root and every single byte. Oracle: a catalog or a non-nil located error, no recovered panic, no fatal error, no hang. non-trivial = distinct input, counted by content hash"
 	c.Assumptions = append(c.Assumptions, "time proportional to the input is not decided; only absence of hangs (20 s per-case deadline, believed after reproduction)")
 }
